@@ -135,7 +135,10 @@ def inheritAfterRedirect (q : OReq) (policy : String) (newUri : String) : List H
   let (s0, _, _) := splitUri q.origUri
   let (s1, _, _) := splitUri newUri
   let keepAuth := policy == "samehost" && uriHost q.origUri == uriHost newUri && (s0 == s1 || s1 == "https")
-  q.origAll.filter fun h => !(h.name == "cookie" || h.name == "content-length" || (h.name == "authorization" && !keepAuth))
+  -- a Host header of the original request stays only while the target is on the original request's host (D13)
+  let keepHost := (uriHost q.origUri).toLower == (uriHost newUri).toLower
+  q.origAll.filter fun h => !(h.name == "cookie" || h.name == "content-length" || (h.name == "authorization" && !keepAuth) ||
+                              (h.name == "host" && !keepHost))
 
 structure HeadSt where
   req : Option OReq := none
@@ -185,7 +188,9 @@ def walkHead (c : TCase) (checkInvalid : Bool) : HeadSt :=
       (match s.req, t.op, t.res with
        | some q, [_, pol], ["flow", m, u] =>
          { s with req := some { method := m, version := q.version, uri := u, origUri := q.origUri, orig := inheritAfterRedirect q pol u, origAll := q.origAll,
-                                optional := ["authorization", "transfer-encoding"] },
+                                -- hosts that differ in letter case only: the Host header may be kept or derived
+                                optional := ["authorization", "transfer-encoding"] ++
+                                  (if uriHost q.origUri != uriHost u && (uriHost q.origUri).toLower == (uriHost u).toLower then ["host"] else []) },
                   wire := [], units := [], started := false, rejected := false, complete := false }
        | _, _, _ => s)
     | "write" | "cwrite" | "cbwrite" =>
